@@ -19,3 +19,9 @@ open Femio.C08
 #print axioms C08_collection_set_attribute
 #print axioms C08_counterexample_iloc_scalar
 #print axioms C08_counterexample_slice_alias
+#print axioms C08_unsigned_guard_vacuous
+#print axioms C08_signed_guard_sound
+#print axioms C08_counterexample_unsigned_shortcut
+#print axioms C08_layout_C_roundtrip
+#print axioms C08_layout_A_symmetric
+#print axioms C08_counterexample_layout_A
